@@ -34,12 +34,12 @@ _C14_BOUNDS = ("registry histories of K+1 operations on a mesh with 3 vertices a
 PROPS["C14"] = dict(
   jobs=[
     dict(name="c14-k0", harness="C14_registry.cpp", entries=["harness_c14"], units=C14_UNITS, unwind=16, eh=True, checks="mem", object_bits=13, witness_any=True,
-         shards=_c14_shards([[]], [c for c in C14_CHUNKS_MAIN if c != 8] + [12]), timeout=300, mem_gb=6,   # chunk 8 (set_shared/set_persistent) needs a handle: not applicable at K=0
+         shards=_c14_shards([[]], [c for c in C14_CHUNKS_MAIN if c != 8] + [12]), timeout=300, mem_gb=3.5,   # chunk 8 (set_shared/set_persistent) needs a handle: not applicable at K=0
          bounds=_C14_BOUNDS + "K=0: single operations on the empty registry (chunk 12: create_shared/create_persistent with the empty name)"),
     dict(name="c14-k1", harness="C14_registry.cpp", entries=["harness_c14"], units=C14_UNITS, unwind=16, eh=True, checks="mem", object_bits=13, witness_any=True,
-         shards={"quick": _c14_shards(_C14_FIRST_QUICK, C14_CHUNKS_MAIN) + _c14_shards([[_P_SHARED]], [13]),
+         shards={"quick": _c14_shards(_C14_FIRST_QUICK[:2], C14_CHUNKS_MAIN) + _c14_shards([[_P_SHARED]], [13]),   # the private-first family is in the thorough tier (quick budget)
                  "thorough": _c14_shards(_C14_FIRST_THOROUGH, C14_CHUNKS_MAIN + C14_CHUNKS_INV)},
-         timeout={"quick": 300, "thorough": 600}, mem_gb=6,
+         timeout={"quick": 300, "thorough": 600}, mem_gb=3.5,
          bounds=_C14_BOUNDS + "K=1: first operation in {request int/Vertex 'a' (shared), create_persistent int/Vertex 'a', create_private int/Vertex 'a'} "
                 "(thorough: + create_persistent bool/Cell 'b', request int/Vertex '' (anonymous), request bool/Vertex 'a', create_shared int/Cell 'b', create_private bool/Cell '', create_persistent bool/Vertex 'b', "
                 "create_shared bool/Vertex 'a'); quick runs the invariant-breaking chunk (set_name) after the shared first operation only"),
@@ -50,7 +50,7 @@ PROPS["C14"] = dict(
                              + _c14_shards([h for h in _C14_PAIRS_THOROUGH if h[1] != _opc(_K_HDROP, 0)], C14_CHUNKS_MAIN)
                              + _c14_shards([h for h in _C14_PAIRS_THOROUGH if h[1] == _opc(_K_HDROP, 0)], [c for c in C14_CHUNKS_MAIN if c != 8])
                              + _c14_shards([[_P_SHARED, _opc(_K_REQUEST, _IV, _B)]], C14_CHUNKS_INV)},
-         timeout={"quick": 300, "thorough": 600}, mem_gb=6,
+         timeout={"quick": 300, "thorough": 600}, mem_gb=3.5,
          bounds=_C14_BOUNDS + "K=2: quick: (create_persistent int/Vertex 'a', drop its handle) = the unreferenced persistent property (chunks 1,2,3,5,7,9,10 of the alphabet; the others timed out at 300 s on the loaded machine and run in thorough), and (request 'a', request 'b') + set_name (two shared properties: name collision); thorough: first in {request 'a', create_persistent 'a', "
                 "create_private 'a'} (int/Vertex) x second in {handle copy, handle drop, set_shared off, set_persistent on, clear_all_props, mesh copy, mesh destruction, request 'b', "
                 "create_private 'a', get_property 'a'}"),
